@@ -463,6 +463,12 @@ pub struct Driver {
 
 impl Drop for Driver {
     fn drop(&mut self) {
+        if self.abort.is_some() {
+            // the world is in a state the library never reaches: running destructors of guards or
+            // cells could panic inside a panic; leak everything instead
+            std::mem::forget(std::mem::take(&mut self.table));
+            return;
+        }
         self.table.clear();
         unsafe {
             drop(Box::from_raw(self.meta));
@@ -543,28 +549,31 @@ impl Driver {
                     c["here"] = json!(true);
                     let mut seen: Option<(usize, i64, u32)> = None;
                     let mut known = false;
-                    let b = match cell.try_borrow_mut() {
-                        Ok(m) => {
-                            seen = read_dyn(&**m);
-                            known = true;
-                            "free"
-                        }
+                    let own_w = self.table.values().find(|e| e.ty == ty && e.dy == dy && e.kind == 'w');
+                    let own_r = self.table.values().any(|e| e.ty == ty && e.dy == dy && e.kind == 'r');
+                    let probe = catch_unwind(AssertUnwindSafe(|| match cell.try_borrow_mut() {
+                        Ok(m) => ("free", read_dyn(&**m), true),
                         Err(_) => match cell.try_borrow() {
-                            Ok(r) => {
-                                seen = read_dyn(&**r);
-                                known = true;
-                                "shared"
-                            }
-                            Err(_) => {
-                                // exclusively borrowed: by one of our own guards, read through it
-                                if let Some(e) = self.table.values().find(|e| e.ty == ty && e.dy == dy && e.kind == 'w') {
-                                    seen = Some(e.g.read());
-                                    known = true;
-                                }
-                                "excl"
-                            }
+                            Ok(r) => ("shared", read_dyn(&**r), true),
+                            // exclusively borrowed: by one of our own guards, read through it
+                            Err(_) => match own_w {
+                                Some(e) => ("excl", Some(e.g.read()), true),
+                                None => ("excl", None, false),
+                            },
                         },
+                    }));
+                    let b = match probe {
+                        Ok((b, s, k)) => {
+                            seen = s;
+                            known = k;
+                            b
+                        }
+                        Err(_) => "broken",
                     };
+                    let expect = if own_w.is_some() { "excl" } else if own_r { "shared" } else { "free" };
+                    if b != expect {
+                        self.abort = Some(format!("cell ({},{}) is {} while the driver's own guards make it {}", ty, dy, b, expect));
+                    }
                     c["b"] = json!(b);
                     if quiescent {
                         // the brief's probe: get_mut_raw(id).type_id()
